@@ -134,9 +134,18 @@ def _real_extractions(args):
         kind = KINDS[rng.randint(len(KINDS))]
         n = int(rng.choice([3, 4, 5, 8, 16, 40, 100, maxn]))
         x = signal(kind, n, rng)
+        # the stopping rules are ratios: they must not depend on the unit the data is expressed in (femto-scale data,
+        # exact powers of two and a decimal factor), nor on the dtype the samples are stored in
+        u = rng.rand()
+        if u < .15:
+            x = np.asarray(x, float) * float(rng.choice([1e-9, 2.0 ** -40, 1e-15, 1e6]))
+        elif u < .25:
+            x = np.round(np.asarray(x, float) * 40).astype([np.int64, np.int16][rng.randint(2)])
+        elif u < .3:
+            x = np.asarray(x, float).astype(np.float32)
         o = imf_opts_for(rng)
         if rng.rand() < .3:
-            o['energy_thresh'] = float(rng.choice([10, 50]))
+            o['energy_thresh'] = float(rng.choice([10, 50, 0]))       # 0 dB is a threshold like any other, not "no threshold"
         eo = {'interp_method': str(rng.choice(INTERPS))}
         xo = {'pad_width': int(rng.randint(1, 5))}
         if rng.rand() < .2:
